@@ -26,7 +26,12 @@ EXTENDS Integers, Sequences, FiniteSets, TLC
 (* oi / oc : parameter / command declared optional=True in the base class and IMPLEMENTED by the       *)
 (* configured class: configured like any other.  ou / od : declared optional in the base class and NOT  *)
 (* implemented: they do not exist on the module, an entry naming them is an unknown name.               *)
-Params == {"a", "b", "n", "s", "l", "k", "z", "oi"}
+(* "needscfg" (a value is REQUIRED in the configuration) is independent of defaults: n has no default,  *)
+(* r1 inherits default=0 from the base class and is redeclared Parameter(needscfg=True) by the         *)
+(* configured class, r2 is declared with its own default=1 and needscfg=True.  Required and no value   *)
+(* configured => missing, whatever default exists in the class chain or is given in the configuration; *)
+(* the requirement is satisfied by a configured value (and by a constant).                             *)
+Params == {"a", "b", "n", "s", "l", "k", "z", "oi", "r1", "r2"}
 OptUnimplemented == {"ou", "od"}
 ClassConst == [z |-> [ty |-> "float", n |-> 6]]
 PInfo == [a |-> [ty |-> "float", lo |-> 0, hi |-> 200, write |-> TRUE,  needscfg |-> FALSE],
@@ -36,7 +41,9 @@ PInfo == [a |-> [ty |-> "float", lo |-> 0, hi |-> 200, write |-> TRUE,  needscfg
           l |-> [ty |-> "tuple", lo |-> 0, hi |-> 6,   write |-> FALSE, needscfg |-> FALSE],
           k |-> [ty |-> "bytes", lo |-> 0, hi |-> 8,   write |-> FALSE, needscfg |-> FALSE],
           z |-> [ty |-> "float", lo |-> 0, hi |-> 200, write |-> FALSE, needscfg |-> FALSE],
-          oi |-> [ty |-> "float", lo |-> 0, hi |-> 200, write |-> TRUE, needscfg |-> FALSE]]
+          oi |-> [ty |-> "float", lo |-> 0, hi |-> 200, write |-> TRUE, needscfg |-> FALSE],
+          r1 |-> [ty |-> "float", lo |-> 0, hi |-> 200, write |-> FALSE, needscfg |-> TRUE],
+          r2 |-> [ty |-> "float", lo |-> 0, hi |-> 200, write |-> FALSE, needscfg |-> TRUE]]
 LimTy(p) == IF PInfo[p].ty \in {"float", "int"} THEN PInfo[p].ty ELSE "int"     \* type of the limits of p
 ModProps == {"mp", "op", "export"}         \* export = FALSE: the module and all its parameters are hidden
 MInfo == [mp |-> [ty |-> "int",   lo |-> 0, hi |-> 10, mandatory |-> TRUE],
